@@ -117,6 +117,9 @@ class Ctx:
         self.notes = []
         self.replay_dir = os.path.join(BUILD, "replay")
         os.makedirs(self.replay_dir, exist_ok=True)
+        for fn in os.listdir(self.replay_dir):
+            if fn.startswith(prop + "-"):
+                os.remove(os.path.join(self.replay_dir, fn))
         self.known = load_known(prop)
         self.cases_dir = os.path.join(BUILD, "cases", prop)
         os.makedirs(self.cases_dir, exist_ok=True)
